@@ -48,6 +48,22 @@ mod reference {
     }
 }
 
+/// the five `char` methods heck and strum call, for every scalar value in play (the identifier, the separators, and the
+/// images under the case mappings, closed): `cp,<lower><upper><alnum>,lo.lo,up.up;...` — the database Model/HeckU.v is
+/// instantiated with
+fn chartab(id: &str) -> String {
+    let mut set: BTreeSet<char> = id.chars().chain("_- ".chars()).collect();
+    loop {
+        let mut more: BTreeSet<char> = BTreeSet::new();
+        for c in &set { for d in c.to_lowercase().chain(c.to_uppercase()) { if !set.contains(&d) { more.insert(d); } } }
+        if more.is_empty() { break; }
+        set.extend(more);
+    }
+    set.iter().map(|c| format!("{},{}{}{},{},{}", *c as u32, c.is_lowercase() as u8, c.is_uppercase() as u8, c.is_alphanumeric() as u8,
+        c.to_lowercase().map(|d| (d as u32).to_string()).collect::<Vec<_>>().join("."),
+        c.to_uppercase().map(|d| (d as u32).to_string()).collect::<Vec<_>>().join("."))).collect::<Vec<_>>().join(";")
+}
+
 use helpers::case_style::{CaseStyle, CaseStyleHelpers};
 use std::collections::BTreeSet;
 use std::str::FromStr;
@@ -600,12 +616,13 @@ fn main() {
                     let ident = if let Some(r) = id.strip_prefix("r#") { syn::Ident::new_raw(r, proc_macro2::Span::call_site()) } else { syn::Ident::new(&id, proc_macro2::Span::call_site()) };
                     ident.convert_case(style) }) { Ok(s) => hex(&s), Err(_) => "panic".to_string() };
                 let want = reference::convert(stname.as_deref(), id.strip_prefix("r#").unwrap_or(&id)).map(|s| hex(&s)).unwrap_or("unknown-style".to_string());
-                format!("real={}|ref={}", real, want)
+                format!("real={}|ref={}|tab={}", real, want, chartab(id.strip_prefix("r#").unwrap_or(&id)))
             }
+            "chartab" => chartab(&unhex(parts[2])),
             "snakifyu" => {
                 let id = unhex(parts[2]);
                 let real = match std::panic::catch_unwind(|| helpers::snakify(&id)) { Ok(s) => hex(&s), Err(_) => "panic".to_string() };
-                format!("real={}|ref={}", real, hex(&reference::snakify(&id)))
+                format!("real={}|ref={}|tab={}", real, hex(&reference::snakify(&id)), chartab(&id))
             }
             "style" => match CaseStyle::from_str(&unhex(parts[2])) { Ok(s) => format!("{:?}", s), Err(_) => "unknown".to_string() },
             "snakify" => hex(&helpers::snakify(&unhex(parts[2]))),
